@@ -8,7 +8,7 @@ The saved file is also decoded by the generated Lean reader (well-formed, consis
 manager model is compared where available.
 """
 import os, random, shutil, tempfile, json
-from harness import common, codec_common as cc, bases, vworker, histories, mgrtrace
+from harness import common, codec_common as cc, bases, vworker, histories, mgrtrace, players_tie
 
 RULE = ("per version: seeded random histories over all public manager operations (in-domain arguments) with 2-3 saves each; at every "
         "save dump(managers) == dump(reload(saved file)); non-trivial = a save preceded by at least 3 recorded operations; "
@@ -112,6 +112,11 @@ def worker(version, args):
                         R.mismatch("Lean construct engine hands the managers different values than the library pulled", {**replay, "diff": cc.first_diff(want, out[idx])})
                     else:
                         R.traces += 1
+        # the per-player lists of PlayerManager (Aoe.Model.Players / Aoe.Props.Hooks) vs player_manager.py
+        if drv:
+            with cc.quiet():
+                scn = AoE2DEScenario.from_file(base)
+            players_tie.run(R, drv, scn, random.Random(f"C03:players:{args['seed']}:{version}"), args.get("nplayers", 12), version)
     finally:
         shutil.rmtree(tmp, ignore_errors=True)
     return R.to_json()
@@ -120,7 +125,7 @@ def worker(version, args):
 def run(ctx):
     R = common.Result(RULE)
     vs = bases.versions()
-    args = {"seed": ctx.seed, "driver": ctx.driver_path, "nhist": ctx.budget(10, 80), "seglen": 10 if ctx.quick else 25}
+    args = {"seed": ctx.seed, "driver": ctx.driver_path, "nhist": ctx.budget(10, 80), "seglen": 10 if ctx.quick else 25, "nplayers": ctx.budget(12, 60)}
     per = vworker.run_versions("h_c03", "worker", vs, args)
     cc.merge_results(R, per, "C03")
     R.extra["versions"] = vs
